@@ -25,9 +25,9 @@ Clause by clause:
 
 Violated on the pinned tree (negation witness, class `C03-vm-fee-check-after-commit`): a tx with an
 ERROR receipt that nevertheless leaves a third account credited — `failed_tx_leaves_residue`; the
-`_partial` theorem excludes exactly the results flagged `leak`. The two name-contract defects of C01
-(`setOwner-owner-is-sender`, `name-owner-is-aergo.name`) are SUCCESS receipts whose effects are not all
-applied; they are witnessed in `Props/C01.lean` and found by this property's oracle as well.
+`_partial` theorem excludes exactly the results flagged `leak`. The two name-contract defects this
+check found as well (`setOwner-owner-is-sender`, `name-owner-is-aergo.name`: SUCCESS receipts whose
+effects were not all applied) are repaired in /repo; regression tests in `Props/C01.lean`.
 
 Not carried by a theorem (see notes/C03.md): the node-level half of the last clause (chain DB indexes,
 best block, bad-block cache: the chain-service harness of C05/C07) — here the block level is the block
